@@ -475,6 +475,9 @@ type c12File struct {
 	frozen  bool
 	inBatch bool
 	writes  int
+	// mergeSelf: MergeUpdate wrote a merged value different from the target but returned the
+	// updater that carries the target value (which the executor then records as last written)
+	mergeSelf bool
 }
 
 type c12World struct {
@@ -592,9 +595,9 @@ func (w *c12World) checkValid(where string) {
 			ch, pa := w.files[n][ri], w.files[p][ri]
 			if !c12Leq(res, ch.cur, pa.cur) {
 				sig := "C12/" + w.unit + "/mid-rewrite-invalid/" + c12ResNames[res]
-				if res == c12CPUSet && ch.cur == ch.start|ch.target && ch.cur != ch.target && ch.target&^pa.cur == 0 {
-					// the child still holds the union written by the merge pass while the parent is
-					// already being narrowed: the child's exact write was skipped
+				if res == c12CPUSet && ch.mergeSelf && ch.cur == ch.start|ch.target && ch.cur != ch.target && ch.target&^pa.cur == 0 {
+					// the child still holds the union written by its MergeUpdate, which returned the
+					// updater carrying the target value, while the parent is already being narrowed
 					sig += "/child-left-at-union-of-old-and-new"
 				}
 				w.c.Fail(sig,
@@ -650,8 +653,12 @@ type c12Updater struct {
 }
 
 func (u *c12Updater) MergeUpdate() (ResourceUpdater, error) {
+	before := u.f.writes
 	m, err := u.ResourceUpdater.MergeUpdate()
 	u.w.snapshot("MergeUpdate", u.f, err)
+	if m == u.ResourceUpdater && u.f.writes > before && u.f.cur != u.f.target {
+		u.f.mergeSelf = true
+	}
 	if m == nil {
 		return nil, err
 	}
@@ -849,6 +856,7 @@ func (w *c12World) rewrite(r *kit.Rand, e *ResourceUpdateExecutorImpl, label str
 	for _, f := range w.all() {
 		f.start = f.cur
 		f.writes = 0
+		f.mergeSelf = false
 	}
 	for ri, res := range w.res {
 		var sb strings.Builder
@@ -875,7 +883,7 @@ func (w *c12World) rewrite(r *kit.Rand, e *ResourceUpdateExecutorImpl, label str
 			f := w.files[n][ri]
 			if f.cur != f.target {
 				sig := "C12/" + w.unit + "/final-not-target/" + c12ResNames[res]
-				if res == c12CPUSet && f.cur == f.start|f.target {
+				if res == c12CPUSet && f.mergeSelf && f.cur == f.start|f.target {
 					sig += "/left-at-union-of-old-and-new"
 				}
 				c.Fail(sig,
